@@ -256,7 +256,8 @@ class Analysis(ABC):
         from .combined import CombinedAnalysis
 
         if isinstance(other, CombinedAnalysis):
-            return other + self
+            # keep the order in which the analyses were written: a + (b + c) is [a, b, c]
+            return type(other)(self, *other.analyses)
         return CombinedAnalysis(self, other)
 
     def __radd__(self, other):
